@@ -261,7 +261,7 @@ def child_main(cfg):
 # ======================================================================================
 
 PROPERTY = "C15"
-GEN: list = []
+GEN: list = ["dbadd"]   # Gen/DbAdd.v: HashFileDB.add / add_update_tree / migrate decisions (translator/dbaddunit.py), tied by Proofs/AddStepsTie.v
 RULE = (
     "scenarios: stage+transfer of a workspace tree into a local store with state; index.save of a "
     "nested tree (two directory objects, duplicate contents, an empty file); store->store transfer of "
